@@ -157,6 +157,31 @@ def equiv(cname, nmoves):
                 MJ.MCmoves(np.array(occch, dtype=int), np.array(unoccch, dtype=int), kTarr)
                 ob('MCmoves-state', same_state(MC, MJ))
                 ob('MCmoves-E', mc.lin_eq(MC.E(), MJ.E(), sym))
+            # restart BOTH samplers (already run) on the original occupation: state, energy, transitions and barriers agree again
+            try:
+                MC.start(mocc.copy())
+                MJ.start(mocc.copy())
+                ob('restart-state', same_state(MC, MJ))
+                ob('restart-E', mc.lin_eq(MC.E(), MJ.E(), sym))
+                ij, Q, dx = MC.transitions()
+                jij, jQ, jdx = MJ.transitions()
+                ref = {}
+                for (i, j), q, d in zip(ij, Q, dx):
+                    ref.setdefault((int(i), int(j)), []).append(q)
+                cnt = {}
+                conds = []
+                for k in range(len(jij)):
+                    key = (int(jij[k][0]), int(jij[k][1]))
+                    if isinf(jQ[k]):
+                        continue
+                    lst = ref.get(key, [])
+                    c = cnt.get(key, 0)
+                    cnt[key] = c + 1
+                    conds.append((c < len(lst)) and mc.lin_eq(lst[c], jQ[k], sym))
+                conds.append(sum(cnt.values()) == len(ij))
+                ob('restart-barriers', core.And(*conds) if sym else all(bool(c) for c in conds))
+            except Exception as e:   # noqa
+                ob('restart-raises', False, 'raises:' + type(e).__name__)
             if sym:
                 obs.append(('twin:%s:E-shifted' % name, mc.lin_eq(MC.E(), MJ.E() + 1e-6, True)))
         return obs
